@@ -57,6 +57,21 @@ type version struct {
 // getOnFragment retrieves an entry from the associated fragment based on the provided environment details.
 // It returns the found entry or an error if the key is not found, too large, or expired.
 func (dm *DMap) getOnFragment(e *env) (storage.Entry, error) {
+	entry, err := dm.getRawOnFragment(e)
+	if err != nil {
+		return nil, err
+	}
+	if isKeyExpired(entry.TTL()) {
+		return nil, ErrKeyNotFound
+	}
+	return entry, nil
+}
+
+// getRawOnFragment returns the entry as it is stored, expired or not. It serves the
+// members that answer a read coordinated elsewhere: the coordinator compares the
+// versions it collects and checks the expiry of the newest one itself. If holders
+// dropped their expired copies here, an older copy without expiry would win.
+func (dm *DMap) getRawOnFragment(e *env) (storage.Entry, error) {
 	part := dm.getPartitionByHKey(e.hkey, e.kind)
 	f, err := dm.loadFragment(part)
 	if err != nil {
@@ -75,10 +90,6 @@ func (dm *DMap) getOnFragment(e *env) (storage.Entry, error) {
 	}
 	if err != nil {
 		return nil, err
-	}
-
-	if isKeyExpired(entry.TTL()) {
-		return nil, ErrKeyNotFound
 	}
 	return entry, nil
 }
